@@ -231,7 +231,7 @@ Section Path.
         by (rewrite LT; cbn [lf_open length]; unfold pb; lia).
       pose proof (erule_general s cx _ _ _ _ _ _ H) as E1.
       pose proof (erule_tgroup s cx _ ps _ _ _ (sv_gdelims _ _ V) T1 E1) as E2.
-      pose proof (erule_group s cx _ ps o (fst (absorb cx ps pos st before)) pb ws _ _ OK T E2) as E3.
+      pose proof (erule_group s cx _ ps o (fst (absorb cx ps pos st before)) pb ws _ _ (opts_ok_2 _ _ OK) T E2) as E3.
       eexists. split; [refine (SIM _ _ _ _ E3)|split; reflexivity].
       + unfold ws. destruct w; exact OKB.
       + rewrite LT. cbn [lf_open length]. lia.
@@ -264,7 +264,7 @@ Section Path.
         by (rewrite LT; cbn [lf_open]; unfold pb; lia).
       pose proof (erule_general s cx _ _ _ _ _ _ H) as E1.
       pose proof (erule_tmath s cx _ ps mk _ _ _ _ T1 E E1) as E2.
-      pose proof (erule_math s cx _ ps o (fst (absorb cx ps pos st before)) pb ws mk _ _ OK (proj1 SD) M T E2) as E3.
+      pose proof (erule_math s cx _ ps o (fst (absorb cx ps pos st before)) pb ws mk _ _ (opts_ok_2 _ _ OK) (proj1 SD) M T E2) as E3.
       eexists. split; [refine (SIM _ _ _ _ E3)|split; reflexivity].
       + unfold ws. destruct w; [|exact OKB]. cbn [app] in *. destruct mk; exact OKB.
       + rewrite LT. cbn [lf_open]. destruct mk; cbn [m_open length]; lia.
@@ -337,7 +337,7 @@ Section Path.
                     SD OKA ltac:(discriminate) SKa E5) as E6.
       rewrite <- SPL in E6.
       pose proof (erule_tcall s cx _ ps (mk TkMacro name p0 pe [] post) sp l pe _ _ SA E6) as E7.
-      pose proof (erule_macro s cx _ ps o (fst (absorb cx ps pos st before)) pb ws name pe post sp _ _ OK GS T E7) as E8.
+      pose proof (erule_macro s cx _ ps o (fst (absorb cx ps pos st before)) pb ws name pe post sp _ _ (opts_ok_2 _ _ OK) GS T E7) as E8.
       eexists. split; [refine (SIM _ _ _ _ E8)|split; reflexivity].
       + unfold ws. destruct w; exact OKB.
       + rewrite LT. cbn [length]. rewrite !app_length. cbn [length]. lia.
